@@ -1356,11 +1356,11 @@ def check(run):
                         'object numbering of add_outlines is modelled as preorder allocation (validated on every case)',
                         'URL resolution, pydyf string encoding, attachment fetching: monitored through full renders only']
     k = 10 if thorough else 1
-    stream_bookmarks(run, rng, 1000 * k)
-    stream_outlines(run, rng, 500 * k)
-    stream_links(run, rng, 700 * k)
-    stream_aabb(run, rng, 500 * k)
-    stream_dates(run, rng, 400 * k)
+    stream_bookmarks(run, rng, 800 * k)
+    stream_outlines(run, rng, 400 * k)
+    stream_links(run, rng, 500 * k)
+    stream_aabb(run, rng, 300 * k)
+    stream_dates(run, rng, 300 * k)
     stream_render(run, rng, 200 * k)
 
 
